@@ -345,7 +345,7 @@ fn shapes(ctx: &Ctx) -> Vec<Shape> {
 
 fn main() {
     let ctx = Ctx::from_env("C12");
-    ctx.rule("case = (attribute shape, provided/absent pattern with values from {absent,0,1,[2,]N,[N+1,]N+3} for every hit result of the mode, accuracy, priority, lazer / stable / lazer Classic / Classic+HD as &GameModsIntermode origin, passed_objects, combo, slider-hit spec); oracle = misses <= objects; provided results that fit are not reduced and the results add up to the number of judgements; combo <= max_combo - misses; generate_state idempotent; calculate() == .state(generated).calculate(); non-trivial = shape has at least one object and at least one hit result is provided");
+    ctx.rule("case = (attribute shape, provided/absent pattern with values from {absent,0,1,[2,]N,[N+1,]N+3} for every hit result of the mode, accuracy, priority, lazer / stable / lazer Classic / Classic+HD as &GameModsIntermode origin, passed_objects, combo, slider-hit spec); oracle = misses <= objects; provided results that fit are not reduced and the results add up to the number of judgements; combo <= max_combo - misses; generate_state idempotent; calculate() == .state(generated).calculate(); map-backed builders agree with attribute-backed ones; on mania maps (N<=3/4 notes and holds in 2 columns) under Invert / HoldOff / both the results add up to the judgements of the rebuilt map (objects = values of a gradual walk); non-trivial = shape has at least one object and at least one hit result is provided");
     ctx.assume("attribute shapes are synthetic (built directly, no map); number of judgements as documented: objects, plus hold notes for lazer non-classic mania");
 
     let shapes = shapes(&ctx);
@@ -520,6 +520,52 @@ fn main() {
                 }
             });
         }
+    }
+    // mania under mods that rebuild the object list inside the calculation (Invert, HoldOff, both): the number of judgements
+    // a generated state must fill is the number of objects of the rebuilt map = the number of values a gradual walk yields
+    {
+        use vh::gen::{Alphabet, Kind, MapSpec, PosK};
+        let alpha = Alphabet::product(&[Kind::Circle, Kind::Hold(300)], &[0, 150], &[PosK::Same], &[0], &[0, 1]);
+        let maxn = ctx.pick(3, 4);
+        let total_maps = alpha.count_upto(maxn) - 1;
+        let mods = [ModSpec::Bits(0), ModSpec::Invert, ModSpec::HoldOff, ModSpec::HoIn(None)];
+        ctx.universe(&format!("map-backed/mania-rebuilding-mods/N<={maxn}"), total_maps * 4 * 2, |idx, l: &mut Local<'_>| {
+            let spec = MapSpec::new(3, alpha.seq(1 + idx % total_maps, maxn));
+            let r = idx / total_maps;
+            let (m, lazer) = (&mods[(r % 4) as usize], r / 4 == 0);
+            let map = spec.decode();
+            let d = Difficulty::new().mods(m.build(GameMode::Mania)).lazer(lazer);
+            let walk: Vec<DifficultyAttributes> = vh::api::gradual(d.clone(), &map, 3).expect("native").collect();
+            let objects = walk.len() as u32;
+            let holds = match walk.last() {
+                Some(DifficultyAttributes::Mania(a)) => a.n_hold_notes,
+                _ => 0,
+            };
+            let judgements = objects + if lazer { holds } else { 0 };
+            l.states(1);
+            if objects > 0 {
+                l.nontrivial();
+            }
+            if l.want_sample() {
+                let mut o = J::obj();
+                o.set("universe", J::s("map-backed/mania-rebuilding-mods"));
+                o.set("index", J::i(idx));
+                o.set("mods", J::s(format!("{m:?} lazer={lazer} objects={objects} holds={holds}")));
+                l.sample(o);
+            }
+            type Set = (&'static str, fn(Performance<'_>) -> Performance<'_>);
+            let builders: [Set; 4] = [("nothing provided", |p| p), ("misses(1000)", |p| p.misses(1000)), ("accuracy(50).misses(1)", |p| p.accuracy(50.0).misses(1)), ("n100(1)", |p| p.n100(1))];
+            for (what, set) in builders {
+                let mut p = set(Performance::new(&map).difficulty(d.clone()));
+                let g = p.generate_state();
+                l.checked(1);
+                let hits = g.total_hits(GameMode::Mania);
+                if g.misses > objects || hits != judgements {
+                    l.violation("mania_rebuilt_map_judgements", || format!("mods {m:?} lazer={lazer}, {what}: generated {g:?} ({hits} results, {} misses) on a map that has {objects} objects and {holds} hold notes under these mods ({judgements} judgements)\nspec={}\n--- .osu ---\n{}", g.misses, spec.describe(), spec.text()));
+                    return;
+                }
+            }
+        });
     }
     ctx.finish();
 }
